@@ -484,3 +484,27 @@ def denote_traintest(expr: dict, kind: str, n: int, x: Term, y: Term, name: str 
         scores.append(Term('metric', Term('take', y, te), fold.xa))
     del folds
     return scores[0] if len(scores) == 1 else Term('reduce', *scores)
+
+
+def persistent_names(expr: typing.Optional[dict]) -> set:
+    """Names of the stateful actors that sit on the apply path (their states are carried between train and apply)."""
+    if expr is None:
+        return set()
+    if expr['op'] == 'chain':
+        return persistent_names(expr['left']) | persistent_names(expr['right'])
+    if expr['op'] == 'wrap':
+        return {expr['apply']['name']} if expr['apply'] and expr['apply']['stateful'] else set()
+    if expr['op'] == 'mapreduce':
+        return {m['name'] for m in expr['mappers'] if m['stateful']}
+    if expr['op'] == 'fullstack':
+        return set().union(*(persistent_names(b) for b in expr['bases']))
+    return set()
+
+
+def apply_with(expr: dict, fits: typing.Iterable[Term], xa: Term) -> Term:
+    """apply[[expr]] with the states of one training run (its fit terms in expansion order)."""
+    table: dict = {}
+    for f in fits:
+        if f.op == 'fit':
+            table.setdefault(f.args[0], []).append(f)
+    return _apply(expr, table, xa)
